@@ -744,6 +744,10 @@ pub struct Runner {
     /// directory for image snapshots (flush points); None = do not dump
     pub dump_dir: Option<String>,
     pub n_flush: usize,
+    /// fault injection: the results of every op (for the oracle) and whether
+    /// faults are cleared before the final flush
+    pub results: Vec<String>,
+    pub fault_mode: bool,
 }
 
 fn classify(e: &qcow2_rs::error::Qcow2Error) -> &'static str {
@@ -753,7 +757,7 @@ fn classify(e: &qcow2_rs::error::Qcow2Error) -> &'static str {
 
 impl Runner {
     pub fn new(case: Case, files: Vec<SimFile>, dump_dir: Option<String>) -> Self {
-        Runner { case, files, out: Vec::new(), dump_dir, n_flush: 0 }
+        Runner { case, files, out: Vec::new(), dump_dir, n_flush: 0, results: Vec::new(), fault_mode: false }
     }
 
     fn emit(&mut self, k: usize, s: String) {
@@ -960,6 +964,7 @@ impl Runner {
             };
             match res {
                 Err(()) => {
+                    self.results.push("panic".into());
                     self.emit(k, "res panic".into());
                     // the device may hold poisoned state: stop the case here
                     std::mem::forget(dev);
@@ -967,7 +972,21 @@ impl Runner {
                 }
                 Ok(Err(())) => unreachable!(),
                 Ok(Ok((r, buf))) => {
+                    self.results.push(r.split(' ').next().unwrap_or("").to_string());
                     self.emit(k, format!("res {}", r));
+                    if self.fault_mode {
+                        let fired: Vec<String> = self.files[0]
+                            .0
+                            .borrow()
+                            .log
+                            .iter()
+                            .filter(|q| q.failed && q.op == k)
+                            .map(|q| q.kind.ch().to_string())
+                            .collect();
+                        if !fired.is_empty() {
+                            self.emit(k, format!("fired {}", fired.join("")));
+                        }
+                    }
                     if let Some(b) = buf {
                         self.emit(k, format!("buf {}", b));
                     }
@@ -1004,10 +1023,27 @@ impl Runner {
         for f in &self.files {
             f.set_op(k);
         }
+        if self.fault_mode {
+            // the backend works again: faults stop before the final flush
+            for f in &self.files {
+                let mut st = f.0.borrow_mut();
+                st.fail_ids.clear();
+                st.punch_unsupported = false;
+            }
+        }
+        let fault_mode = self.fault_mode;
         let r = catch_unwind(AssertUnwindSafe(|| {
             block_on(async {
                 let live = sweep(&dev, case.size, 1u64 << params.get_bs_bits()).await;
-                let fl = if case.rdonly { Ok(()) } else { dev.flush_meta().await };
+                let mut fl = if case.rdonly { Ok(()) } else { dev.flush_meta().await };
+                if fault_mode {
+                    // "repeating flush_meta() until it returns Ok"
+                    let mut tries = 0;
+                    while fl.is_err() && tries < 5 {
+                        fl = dev.flush_meta().await;
+                        tries += 1;
+                    }
+                }
                 (live, fl.is_ok())
             })
         }));
